@@ -133,7 +133,11 @@ class C04(Prop):
                     ts.append(base + d * 86400 + tod)
             ts += [base + rng.randint(-10**8, 10**9) for _ in range(3000)]
         chunks = [ts[i:i + 20000] for i in range(0, len(ts), 20000)]
-        iout = implmod.run_impl('exchange', [{'ts': c} for c in chunks], min_per_shard=1)
+        if len(chunks) < 3:
+            chunks = [ts[i::3] for i in range(3)]
+        # the exchange's own start argument varies: before, inside and after the instants asked about
+        starts = [0, base + 3 * 86400, base + 2 * 10**9]
+        iout = implmod.run_impl('exchange', [{'ts': c, 'exch_start': starts[i % 3]} for i, c in enumerate(chunks)], min_per_shard=1)
         mout = model.run_model([('is_open', c) for c in chunks])
         found = []
         n = 0
